@@ -67,3 +67,29 @@ Example C03_quantile_example :
   Qle_bool (Qabs (res - 1)) (1 # 50) = true.
 Proof. exact ex_quantile. Qed.
 Print Assumptions C03_quantile_example.
+
+(* ------------------------------------------------------------------------------------------------
+   With the real matrix exponential (analysis/MExp.v): the propagator of a generator over any
+   non-negative time is a stochastic matrix (entries >= 0, rows summing to 1) - so every cdf value
+   1 - alpha P(t) e with alpha a probability vector and e a 0/1 vector lies in [0,1] - and the
+   absorption probability transfers along any lumping through any sequence of epochs. *)
+From mathcomp Require Import all_ssreflect all_algebra.
+From Coq Require Import Reals.
+From PG Require Import proofs.ExpLaws analysis.Rstruct analysis.RSums analysis.MExp analysis.MExpLaws.
+Import GRing.Theory.
+Local Open Scope ring_scope.
+
+Theorem C03_propagator_is_stochastic_real :
+  forall n (S : 'M[R]_n) (t : R), Rle R0 t ->
+    (forall i j, i != j -> Rle R0 (S i j)) -> S *m const_mx 1 = (0 : 'M[R]_(n, 1)) ->
+    mx_ge0 (mexp (t *: S)) /\ mexp (t *: S) *m const_mx 1 = (const_mx 1 : 'M[R]_(n, 1)).
+Proof. exact: real_generator_stochastic. Qed.
+Print Assumptions C03_propagator_is_stochastic_real.
+
+Theorem C03_absorption_probability_transfers_real :
+  forall m n (P : 'M[R]_(m, n)) (eps : seq (R * 'M[R]_m * 'M[R]_n)) (aL : 'rV[R]_m) (eC : 'cV[R]_n),
+    (forall x, x \in eps -> x.1.2 *m P = P *m x.2) ->
+    aL *m epoch_prodL (fun n : nat => @mexp n) eps *m (P *m eC)
+    = (aL *m P) *m epoch_prodC (fun n : nat => @mexp n) eps *m eC.
+Proof. by move=> *; apply: real_lumping_product_cdf. Qed.
+Print Assumptions C03_absorption_probability_transfers_real.
